@@ -334,8 +334,8 @@ c18_inst! {
 fn c18c<const OPT: u8, const PATTERN: u8, const LL: usize>() {
     let mut buf: [u8; LL] = kani::any();
     put_header(&mut buf, (LL - 20) as u16);
-    let types: [u16; 3] = if PATTERN == 0 { [0x8028, 0x0024, 0] } else { [0x0024, 0x8028, 0x7f02] };
-    let n = if PATTERN == 0 { 2 } else { 3 };
+    let types: [u16; 3] = if PATTERN == 0 { [0x8028, 0x0024, 0] } else if PATTERN == 2 { [0x7f02, 0, 0] } else { [0x0024, 0x8028, 0x7f02] };
+    let n = if PATTERN == 0 { 2 } else if PATTERN == 2 { 1 } else { 3 };
     let mut i = 0;
     while i < n {
         let o = 20 + 8 * i;
@@ -354,7 +354,17 @@ fn c18c<const OPT: u8, const PATTERN: u8, const LL: usize>() {
     assert!(r.is_ok(), "C03/C18: a well-formed message decodes under every option set");
     let recorded = unsafe { REC_N };
     let all = OPT & 2 != 0;
-    if PATTERN == 0 {
+    if PATTERN == 2 {
+        // PATTERN 2: one unknown attribute 0x7F02 (28 bytes)
+        assert!(recorded == 1);
+        let u = unsafe { REC_ATTRS[0] };
+        assert!(u.code == 0x7f02);
+        if OPT & 4 != 0 {
+            assert!(u.has_data && u.dlen == 4 && u.d0 == buf[24] && u.d3 == buf[27], "C18: with_unknown_data keeps exactly the raw value bytes");
+        } else {
+            assert!(!u.has_data, "C18: raw data only when asked for");
+        }
+    } else if PATTERN == 0 {
         // PRIORITY after FINGERPRINT is not admitted
         assert!(recorded == if all { 2 } else { 1 }, "C18/C09: default result = admitted subsequence; not_ignore = every wire attribute; no context == default context");
         assert!(unsafe { REC_ATTRS[0].code } == 0x8028);
@@ -392,4 +402,107 @@ c18c_inst! {
     c18c_noctx_prio_fp_unk = (0, 1, 44);
     c18c_not_ignore_unknown_data = (7, 1, 44);
     c18c_not_ignore_prio_fp_unk = (3, 1, 44);
+    c18c_unknown_data_one = (5, 2, 28);
+    c18c_unknown_nodata_one = (1, 2, 28);
+}
+
+// ---------------------------------------------------------------------------------------------
+// C18 / C09, validation switched on: the CRC primitive is replaced by a stub that answers an
+// arbitrary verdict per call and counts the calls (Fingerprint::validate), the MAC/CRC input
+// selection by a stub returning an empty text (decided on its own in C04/C10).
+//   PATTERN 0: FINGERPRINT, PRIORITY   PATTERN 2: FINGERPRINT, FINGERPRINT   (36 bytes)
+//   OPT bits: 1 = context, 2 = not_ignore, 8 = with_validation
+// Decided: validation only ever turns an Ok into an Err (Ok under validation => the attributes of the
+// non-validating decode), exactly the admitted verifiable attributes are validated (all of them with
+// not_ignore), none without with_validation.
+// ---------------------------------------------------------------------------------------------
+static mut VAL_CALLS: usize = 0;
+static mut VAL_ANS: [bool; 2] = [false; 2];
+fn fp_validate_any(_this: &crate::attributes::stun::Fingerprint, _input: &[u8]) -> bool {
+    unsafe {
+        let k = VAL_CALLS;
+        VAL_CALLS += 1;
+        k < 2 && VAL_ANS[k]
+    }
+}
+fn input_text_empty(_buffer: &[u8], _attr_type: u16) -> Result<Vec<u8>, crate::StunError> {
+    Ok(Vec::new())
+}
+fn c18v<const OPT: u8, const PATTERN: u8>() {
+    const LL: usize = 36;
+    let mut buf: [u8; LL] = kani::any();
+    put_header(&mut buf, (LL - 20) as u16);
+    let types: [u16; 2] = if PATTERN == 0 { [0x8028, 0x0024] } else { [0x8028, 0x8028] };
+    let mut i = 0;
+    while i < 2 {
+        let o = 20 + 8 * i;
+        buf[o] = (types[i] >> 8) as u8;
+        buf[o + 1] = types[i] as u8;
+        buf[o + 2] = 0;
+        buf[o + 3] = 4;
+        i += 1;
+    }
+    let ans: [bool; 2] = kani::any();
+    let mut b = DecoderContextBuilder::default();
+    if OPT & 2 != 0 {
+        b = b.not_ignore();
+    }
+    if OPT & 8 != 0 {
+        b = b.with_validation();
+    }
+    let dec = MessageDecoderBuilder::default().with_context(b.build()).build();
+    unsafe {
+        REC_N = 0;
+        VAL_CALLS = 0;
+        VAL_ANS = ans;
+    }
+    let r = dec.decode(&buf);
+    let calls = unsafe { VAL_CALLS };
+    let recorded = unsafe { REC_N };
+    let all = OPT & 2 != 0;
+    let validating = OPT & 8 != 0;
+    // what the non-validating decode returns (decided by c18c_* / this function with OPT & 8 == 0)
+    let want = if all { 2 } else { 1 };
+    // verifiable attributes the ordering rule admits
+    let verifiable = if PATTERN == 2 && all { 2 } else { 1 };
+    if !validating {
+        assert!(calls == 0, "C18: nothing is validated unless asked for");
+        assert!(r.is_ok() && recorded == want);
+    } else {
+        let ok = ans[0] && (verifiable == 1 || ans[1]);
+        assert!(r.is_ok() == ok, "C18: validation fails the decode exactly when an admitted attribute does not verify");
+        if r.is_ok() {
+            assert!(recorded == want, "C18: validation on and Ok => the same attributes as with validation off");
+            assert!(calls == verifiable, "C09: exactly the admitted verifiable attributes are validated");
+        } else {
+            assert!(calls <= verifiable && calls >= 1, "C09: an attribute that is not admitted is never validated");
+        }
+    }
+    if recorded >= 1 {
+        assert!(unsafe { REC_ATTRS[0].code } == 0x8028);
+    }
+    kani::cover!(r.is_ok());
+    kani::cover!(validating && r.is_err());
+    std::mem::forget(r);
+    std::mem::forget(dec);
+}
+macro_rules! c18v_inst {
+    ($($name:ident = ($o:expr, $p:expr);)*) => {$(
+        #[kani::proof]
+        #[kani::unwind(6)]
+        #[kani::stub(alloc::fmt::format, nofmt)]
+        #[kani::stub(<crate::types::TransactionId as std::default::Default>::default, tid_any)]
+        #[kani::stub(crate::registry::get_handler, registry_small)]
+        #[kani::stub(crate::message::StunMessageBuilder::with_attribute, rec_with_attribute)]
+        #[kani::stub(crate::attributes::stun::fingerprint::Fingerprint::validate, fp_validate_any)]
+        #[kani::stub(crate::raw::get_input_text, input_text_empty)]
+        fn $name() { c18v::<$o, $p>(); }
+    )*};
+}
+c18v_inst! {
+    c18v_validate_fp_prio = (9, 0);
+    c18v_validate_not_ignore_fp_prio = (11, 0);
+    c18v_validate_fp_fp = (9, 2);
+    c18v_validate_not_ignore_fp_fp = (11, 2);
+    c18v_novalidate_fp_fp = (1, 2);
 }
